@@ -274,7 +274,7 @@ func devApplies(dev, kind string) bool {
 		return true
 	case "bal+1", "bal-1", "balnil", "balbad":
 		return kind == "bal"
-	case "amt+1", "amt-1", "noop", "revertmoved":
+	case "amt+1", "amt-1", "amtx2", "neg", "noop", "revertmoved":
 		return kind == "mint" || kind == "burnc" || kind == "burn" || kind == "xfer"
 	case "false", "falsemoved", "retempty", "retbad", "ret2", "approval", "approvalfirst", "approval1", "approval4", "notopics", "otherlog", "credit":
 		return kind == "xfer"
@@ -343,9 +343,13 @@ func (m *ScriptEVM) ApplyMessage(ctx sdk.Context, msg core.Message, tracer vm.EV
 			return new(big.Int).Add(v, big.NewInt(1))
 		case "amt-1":
 			return new(big.Int).Sub(v, big.NewInt(1))
+		case "amtx2":
+			return new(big.Int).Lsh(v, 1)
 		}
 		return v
 	}
+	// "neg": the movement happens in the opposite direction (where the ledger allows it, else nothing moves)
+	neg := dev == "neg"
 	switch meth.Name {
 	case "name", "symbol", "decimals":
 		if dev == "qnil" {
@@ -392,7 +396,12 @@ func (m *ScriptEVM) ApplyMessage(ctx sdk.Context, msg core.Message, tracer vm.EV
 		if ns.Cmp(two256) >= 0 || amt.Sign() < 0 {
 			return m.answer(kind, reverted(), nil)
 		}
-		if dev != "noop" && commit {
+		if neg {
+			if b := m.Bal(ctx, c, to); commit && b.Cmp(amt) >= 0 && m.Sup(ctx, c).Cmp(amt) >= 0 {
+				m.setBal(ctx, c, to, new(big.Int).Sub(b, amt))
+				m.setSup(ctx, c, new(big.Int).Sub(m.Sup(ctx, c), amt))
+			}
+		} else if dev != "noop" && commit {
 			m.setSup(ctx, c, ns)
 			m.setBal(ctx, c, to, new(big.Int).Add(m.Bal(ctx, c, to), amt))
 		}
@@ -418,7 +427,12 @@ func (m *ScriptEVM) ApplyMessage(ctx sdk.Context, msg core.Message, tracer vm.EV
 		if who == zero || b.Cmp(amt) < 0 || amt.Sign() < 0 || m.Sup(ctx, c).Cmp(amt) < 0 {
 			return m.answer(kind, reverted(), nil)
 		}
-		if dev != "noop" && commit {
+		if neg {
+			if ns := new(big.Int).Add(m.Sup(ctx, c), amt); commit && ns.Cmp(two256) < 0 {
+				m.setBal(ctx, c, who, new(big.Int).Add(b, amt))
+				m.setSup(ctx, c, ns)
+			}
+		} else if dev != "noop" && commit {
 			m.setBal(ctx, c, who, new(big.Int).Sub(b, amt))
 			m.setSup(ctx, c, new(big.Int).Sub(m.Sup(ctx, c), amt))
 		}
@@ -437,7 +451,12 @@ func (m *ScriptEVM) ApplyMessage(ctx sdk.Context, msg core.Message, tracer vm.EV
 		if amt.Sign() < 0 || (dev != "credit" && (to == zero || from == zero || b.Cmp(amt) < 0)) {
 			return m.answer(kind, reverted(), nil)
 		}
-		if dev != "noop" && commit {
+		if neg {
+			if tb := m.Bal(ctx, c, to); commit && tb.Cmp(amt) >= 0 && to != from {
+				m.setBal(ctx, c, to, new(big.Int).Sub(tb, amt))
+				m.setBal(ctx, c, from, new(big.Int).Add(b, amt))
+			}
+		} else if dev != "noop" && commit {
 			if dev == "credit" {
 				// credits the recipient without debiting the sender (total supply grows)
 				m.setSup(ctx, c, new(big.Int).Add(m.Sup(ctx, c), amt))
